@@ -14,7 +14,9 @@ CASE_TYPE = 'c12_case'
 CHECK = 'c12_check'
 SHOW = 'c12_show'
 SHARD = 120
-RULE = ('case = (list of extents of a context: complete or a sub-list keeping top and bottom; sorted or '
+RULE = ('case = (list of extents of a context: complete, a sub-list keeping top and bottom, or a non-graded family '
+        '(pentagon-like, uneven chains below a node: every family of object sets is a sub-list of the concepts of '
+        'the context with one attribute per set); sorted or '
         'shuffled; flag), routine, n_jobs, [chains | concept to add | index to remove]; '
         'non-trivial = at least 5 concepts, at least one pair of incomparable concepts and at least one '
         'non-cover comparable pair (so the transitive reduction has something to remove)')
@@ -288,13 +290,91 @@ def random_chains(rng, exts, flag):
     return chains
 
 
+def table_of_family(n_objects, family):
+    """A context with one attribute per set of the family: every set of the family is one of its concept
+    extents, so ANY family of object sets is a sub-list of the concepts of a context."""
+    return [[g in e for e in family] for g in range(n_objects)]
+
+
+def nongraded_family(rng, max_n):
+    """A list of distinct object sets with a greatest and a least one whose order is NOT graded: maximal chains
+    of different length between the same two elements (pentagon-like shapes, uneven chains below a node)."""
+    shape = rng.choice(['uneven', 'uneven', 'pentagon', 'randfam'])
+    if shape == 'pentagon':
+        # 0 < a < b < 1 and 0 < c < 1 with c incomparable to a, b; optionally stretched / doubled
+        la, lc = rng.randint(2, 3), 1
+        m = la + lc + rng.randint(0, 1)
+        fam = [frozenset(range(k + 1)) for k in range(la)] + [frozenset([la])]
+        if rng.random() < 0.5:
+            fam.append(frozenset(range(la)) | frozenset([la]))     # a node above both chains
+    elif shape == 'uneven':
+        # two or three nested chains of different length on disjoint blocks, a node N above their tops,
+        # a chain from N up to the full set
+        lens = rng.sample([1, 2, 3, 4], rng.randint(2, 3))
+        fam, start, tops = [], 0, []
+        for ln in lens:
+            blk = list(range(start, start + ln))
+            fam += [frozenset(blk[:k + 1]) for k in range(ln)]
+            tops.append(frozenset(blk))
+            start += ln
+        node = frozenset().union(*tops)
+        fam.append(node)
+        if rng.random() < 0.5 and len(tops) > 2:
+            fam.append(tops[0] | tops[1])
+        m = start + rng.randint(1, 2)
+        for k in range(start, m - 1):
+            fam.append(frozenset(range(k + 1)))
+    else:
+        m = rng.randint(4, 6)
+        fam = []
+        for _ in range(rng.randint(4, 8)):
+            k = rng.randint(1, m - 1)
+            fam.append(frozenset(rng.sample(range(m), k)))
+        # add a few nested refinements so that chains of different length appear
+        for e in list(fam)[:3]:
+            if len(e) >= 2:
+                fam.append(frozenset(sorted(e)[:len(e) - 1]))
+    full = frozenset(range(m))
+    fam = list(dict.fromkeys([e for e in fam if e and e != full]))
+    if len(fam) > max_n - 2:
+        fam = fam[:max_n - 2]
+    fam = [full] + fam + [frozenset()]
+    exts = sorted([sorted(e) for e in fam], key=sort_key)
+    return table_of_family(m, [e for e in fam if e]), exts, 'nongraded-' + shape
+
+
+def is_graded(exts):
+    """Do all maximal chains between two comparable elements have the same length?  (rank function test)"""
+    s = [frozenset(e) for e in exts]
+    n = len(s)
+    cov = covers_py(exts)
+    bot = min(range(n), key=lambda i: len(s[i]))
+    rank = {bot: 0}
+    changed = True
+    order = sorted(range(n), key=lambda i: len(s[i]))
+    for i in order:
+        rs = {rank[j] + 1 for j in cov[i] if j in rank}
+        if len(rs) > 1:
+            return False
+        if rs:
+            rank[i] = rs.pop()
+        elif i != bot:
+            rank[i] = 0
+    return True
+
+
 def random_case(rng, max_dim, max_n, ops, threaded=False, switch=False):
-    for _ in range(50):
-        table, kind = small_table(rng, max_dim)
-        exts, complete = pick_list(rng, table, max_n)
-        if len(exts) >= 2:
-            break
     op = rng.choice(ops)
+    # random small contexts are mostly graded: weight non-graded families, above all for add/remove
+    if rng.random() < (0.55 if op in (8, 9) else 0.12):
+        table, exts, kind = nongraded_family(rng, max_n)
+        complete = False
+    else:
+        for _ in range(50):
+            table, kind = small_table(rng, max_dim)
+            exts, complete = pick_list(rng, table, max_n)
+            if len(exts) >= 2:
+                break
     listing, flag, mode = arrange(rng, exts)
     kind = '%s/%s/%s' % (kind, 'complete' if complete else 'sub', mode)
     if op == 7 and not complete:
@@ -306,7 +386,22 @@ def random_case(rng, max_dim, max_n, ops, threaded=False, switch=False):
     n_jobs = 1
     if threaded:
         cnt = len(chains) if chains else predicted_chain_count(listing, flag)
-        opts = [j for j in (2, 3, 4) if cnt % j != 0 and cnt > 1] or [2, 3, 4]
+        for _ in range(12):
+            if cnt >= 3:
+                break
+            # prefer lists with several chains, so that the chunked sweep has more than one batch
+            if rng.random() < 0.5:
+                table, exts, kind0 = nongraded_family(rng, max_n)
+            else:
+                table, kind0 = small_table(rng, max_dim)
+                exts, _ = pick_list(rng, table, max_n, complete=rng.random() < 0.6)
+            listing, flag, mode = arrange(rng, exts)
+            kind = '%s/%s/%s' % (kind0, 'threaded', mode)
+            chains = random_chains(rng, listing, flag) if (op in (4, 5) and rng.random() < 0.4) else None
+            cnt = len(chains) if chains else predicted_chain_count(listing, flag)
+        # chain count not a multiple of n_jobs, and (if possible) more chains than jobs: >= 2 batches
+        opts = ([j for j in (2, 3, 4) if cnt % j != 0 and j < cnt] or
+                [j for j in (2, 3, 4) if cnt % j != 0 and cnt > 1] or [2, 3, 4])
         n_jobs = rng.choice(opts)
     elif op == 5:
         # the parallel routine with n_jobs=1 runs the same chunked loop without joblib (cheap)
@@ -323,6 +418,26 @@ def random_case(rng, max_dim, max_n, ops, threaded=False, switch=False):
             bot = min(range(n), key=lambda i: len(s[i]))
             r = rng.random()
             arg = rng.randrange(n) if r < 0.85 else rng.choice([top, bot])
+            if rng.random() < 0.2:
+                # a list whose bottom has exactly one upper cover / whose top has exactly one lower cover:
+                # removing that bottom / top is legitimate (the reduced list still has a least / greatest one)
+                m = max([g for e in listing for g in e] + [-1]) + 1
+                if rng.random() < 0.5:
+                    listing = [sorted(e + [m]) for e in listing] + [sorted(listing[bot])]
+                    table = table_of_family(m + 1, [frozenset(e) for e in listing if e])
+                    special = len(listing) - 1
+                else:
+                    listing = listing + [sorted(listing[top] + [m])]
+                    table = table_of_family(m + 1, [frozenset(e) for e in listing if e])
+                    special = len(listing) - 1
+                kind = kind + '+single-cover'
+                if rng.random() < 0.4:
+                    rng.shuffle(listing)
+                n = len(listing)
+                s = [frozenset(e) for e in listing]
+                top = max(range(n), key=lambda i: len(s[i]))
+                bot = min(range(n), key=lambda i: len(s[i]))
+                arg = rng.choice([top, bot]) if rng.random() < 0.7 else rng.randrange(n)
             tb = rng.choice(['none', 'given', 'given', 'one'])
             t, b = (None, None) if tb == 'none' else (top, bot) if tb == 'given' else (top, None)
             return _mk(table, listing, False, 9, arg=arg, top=t, bottom=b, kind=kind)
@@ -338,7 +453,12 @@ def add_case(rng, table, listing, flag, kind):
     if n < 3:
         return _mk(table, listing, flag, 0, kind=kind)
     r = rng.random()
-    i = rng.randrange(n) if r < 0.8 else rng.choice([top, bot])
+    if r < 0.45:
+        # a concept high in the list (many concepts, and chains of different length, below it)
+        big = sorted((k for k in range(n) if k != top), key=lambda k: -len(s[k]))
+        i = rng.choice(big[:max(1, len(big) // 3)])
+    else:
+        i = rng.randrange(n) if r < 0.88 else rng.choice([top, bot])
     new = listing[i]
     rest = listing[:i] + listing[i + 1:]
     s2 = [frozenset(e) for e in rest]
@@ -410,6 +530,9 @@ def stats(case):
     d = {'op': OPS[case['op']], 'n_concepts': n if n < 10 else '%d-%d' % (n // 5 * 5, n // 5 * 5 + 4),
          'flag': case['sorted'], 'n_jobs': case['n_jobs'], 'kind': case.get('kind', '').split('/', 1)[-1],
          'chains': 'given' if case.get('chains') else 'library', 'switchinterval': bool(case.get('switch'))}
+    if case['op'] in (8, 9):
+        full = case['exts'] + ([case['new']] if case.get('new') is not None else [])
+        d['add/remove order'] = 'graded' if is_graded(full) else 'non-graded'
     if case['n_jobs'] > 1 and case['op'] in (5, 6):
         cnt = len(case['chains']) if case.get('chains') else predicted_chain_count(case['exts'], case['sorted'])
         d['chains_mod_jobs'] = 'multiple' if cnt % case['n_jobs'] == 0 else 'not a multiple'
